@@ -396,6 +396,79 @@ def parser_ir():
     return {'strip': True, 'text': text, 'attr': attr, 'children_in_file_order': True}
 
 
+# ---- (g) order of checks and stores in XMLElement.add_child / remove / value_ setter
+def element_effects():
+    t = parse('musicxml/xmlelement/xmlelement.py')
+    cls = [n for n in ast.walk(t) if isinstance(n, ast.ClassDef) and n.name == 'XMLElement']
+    if len(cls) != 1:
+        raise Fail('XMLElement class not found')
+    fns = {}
+    for f in cls[0].body:
+        if isinstance(f, ast.FunctionDef):
+            if f.name == 'value_' and any(ast.unparse(d) == 'value_.setter' for d in f.decorator_list):
+                fns['value_set'] = f
+            elif f.name in ('add_child', 'remove') and not f.decorator_list:
+                fns[f.name] = f
+    for need in ('add_child', 'remove', 'value_set'):
+        if need not in fns:
+            raise Fail('XMLElement.%s not found' % need)
+
+    def classify(st, helpers):
+        u = ast.unparse(st)
+        if isinstance(st, ast.Expr) and isinstance(st.value, ast.Constant):
+            return []
+        if isinstance(st, ast.FunctionDef):
+            helpers.add(st.name)
+            return []
+        if isinstance(st, ast.Raise):
+            return ['Raise']
+        if isinstance(st, ast.Return) or isinstance(st, ast.Delete):
+            return []
+        if isinstance(st, ast.If):
+            test = ast.unparse(st.test)
+            inner = []
+            for x in st.body + st.orelse:
+                inner += classify(x, helpers)
+            if test in ('self.xsd_check', 'not self._child_container_tree') or test.startswith('parent_container.chosen_child =='):
+                return inner
+            raise Fail('unrecognised condition: ' + test)
+        if u.startswith('self._child_container_tree.add_element('):
+            return ['Matcher']
+        if u == 'self._unordered_children.remove(child)':
+            return ['ListRemove']
+        if u == 'self._unordered_children.append(child)':
+            return ['Append']
+        if u in ('child._parent = self', 'child._parent = None'):
+            return ['SetParent']
+        if u.startswith('self.TYPE(val'):
+            return ['Validate']
+        if u == 'self._value = val':
+            return ['Store']
+        if isinstance(st, ast.Assign) and len(st.targets) == 1 and isinstance(st.targets[0], ast.Name):
+            if any(isinstance(n, ast.Call) and call_name(n) not in ('get_parent',) for n in ast.walk(st.value)):
+                raise Fail('local assignment with a call: ' + u)
+            return ['Read']
+        if isinstance(st, ast.Assign) and len(st.targets) == 1 and isinstance(st.targets[0], ast.Attribute):
+            root = st.targets[0]
+            while isinstance(root, ast.Attribute):
+                root = root.value
+            if isinstance(root, ast.Name) and root.id in ('parent_container', 'child'):
+                return ['Container']
+        if u == 'child.parent_xsd_element.xml_elements.remove(child)':
+            return ['Container']
+        if isinstance(st, ast.Expr) and isinstance(st.value, ast.Call) and isinstance(st.value.func, ast.Name) and st.value.func.id in helpers and not st.value.args:
+            return ['Container']
+        raise Fail('unrecognised statement: ' + u[:80])
+    out = {}
+    for k, f in fns.items():
+        helpers = set()
+        eff = []
+        for st in f.body:
+            eff += classify(st, helpers)
+        out[k] = eff
+    return out
+
+
 def cq(s):
     return q(str(s))
 
@@ -491,6 +564,18 @@ def main():
         o.append('Definition tr_parser_ok := false. (* %s *)' % str(ex).replace('*', ' ').replace('\n', ' '))
         o.append('Definition parser_text_ladder : list (conv * list pexn) := [].')
         o.append('Definition parser_attr_ladder : list (conv * list pexn) := [].')
+    o.append('Inductive eeff := XRaise | XMatcher | XListRemove | XAppend | XSetParent | XRead | XContainer | XValidate | XStore.')
+    try:
+        ee = element_effects()
+        side['element_effects'] = ee
+        o.append('Definition tr_element_ok := true.')
+        for k in ('add_child', 'remove', 'value_set'):
+            o.append('Definition elt_%s : list eeff := [%s].' % (k, '; '.join('X' + e for e in ee[k])))
+    except Fail as ex:
+        side['element_effects'] = 'FAILED: ' + str(ex)
+        o.append('Definition tr_element_ok := false. (* %s *)' % str(ex).replace('*', ' ').replace('\n', ' '))
+        for k in ('add_child', 'remove', 'value_set'):
+            o.append('Definition elt_%s : list eeff := [].' % k)
     ch = write_if_changed(os.path.join(VERIF, 'coq', 'Gen', 'Code.v'), '\n'.join(o) + '\n')
     write_if_changed(os.path.join(VERIF, 'build', 'code.json'), json.dumps(side, sort_keys=True, indent=1))
     print('code: write=%s opens=%s prints=%s caches=%s changed=%s' % (
